@@ -18,7 +18,7 @@ def enc(s):
 
 
 def mc_cfg(bug=None):
-    return ("SPECIFICATION Spec\nCONSTANTS\n  Bug = {%s}\n  MaxReq = 7\nINVARIANTS NoDoubleUnlock NoLockLeak NoBlockedHandler NoSelfDeadlock\n"
+    return ("SPECIFICATION Spec\nCONSTANTS\n  Bug = {%s}\n  MaxReq = 7\nINVARIANTS NoDoubleUnlock NoLockLeak NoBlockedHandler NoSelfDeadlock NoRWDeadlock\n"
             "PROPERTIES StillServes\nCHECK_DEADLOCK FALSE\n" % (('"%s"' % bug) if bug else ""))
 
 
@@ -220,6 +220,64 @@ def plan(side, state, rng, quick):
     return reqs
 
 
+def storm(ch, side, state, worker, rng, quick):
+    """concurrency phase: several clients send well-formed, non-disruptive requests (readers of the
+    server mutex and writers of it) at the same time; afterwards the server must be alive, its mutex
+    free and the liveness request served.  One record per round."""
+    from concurrent.futures import ThreadPoolExecutor
+    if not ch.alive():
+        ch.start()
+    if side == "controller":
+        vol = "/v1/volumes/" + enc("vol")
+        reqs = [("GET", "/v1/volumes", None), ("GET", vol, None), ("GET", "/v1/stats", None), ("GET", "/v1/checkpoint", None),
+                ("GET", "/v1/replicas", None), ("POST", vol + "?action=setlogging", {"enable": False}),
+                ("POST", "/v1/journal", {"limit": 1}), ("GET", "/metrics", None),
+                ("DELETE", vol + "?action=deleteSnapshot", {"name": "nosuch"}),
+                ("POST", vol + "?action=revert", {"name": "nosuch"})]
+    else:
+        R = "/v1/replicas/1"
+        mode = (ch.state_now() or {}).get("mode") or "RW"
+        reqs = [("GET", "/ping", None), ("GET", "/v1/replicas", None), ("GET", R, None), ("GET", R + "/volusage", None),
+                ("GET", "/v1/stats", None), ("GET", "/v1/rebuildinfo", None),
+                ("POST", R + "?action=setreplicamode", {"mode": mode if mode in ("RW", "WO") else "RW"}),
+                ("POST", R + "?action=setlogging", {"enable": False}),
+                ("POST", R + "?action=prepareremovedisk", {"name": "nosuch"}),
+                ("POST", R + "?action=setcheckpoint", {"snapshotName": "x"})]   # (nothing that drains the hole queue: 1 s each)
+    events = []
+    for rnd in range(2 if quick else 6):
+        if not ch.alive():
+            ch.start()
+        before = ch.state_now()
+
+        def client(i):
+            r = random.Random(rng.random() + i)
+            lost = 0
+            for _ in range(40 if quick else 120):
+                m, p, b = reqs[r.randrange(len(reqs))]
+                st, _ = ch.request(m, p, json.dumps(b).encode() if b is not None else None, timeout=6)
+                if st == -1:
+                    lost += 1
+                    if lost >= 2:
+                        break
+            return lost
+        with ThreadPoolExecutor(max_workers=8) as ex:
+            lost = sum(ex.map(client, range(8)))
+        alive = ch.alive()
+        lockfree = probe = False
+        after = {}
+        if alive:
+            lockfree = ch.request("GET", "/verif/trylock", None, timeout=6)[0] == 200
+            probe = ch.request("GET", "/v1/replicas" if side == "controller" else "/ping", None, timeout=6)[0] == 200
+            after = ch.state_now()
+        events.append(dict(n=worker * 100000 + 90000 + rnd, side=side, state=state, method="STORM", path="8 clients x mixed requests",
+                           **{"class": "valid"}, status=(-1 if lost else 200), alive=alive, lockfree=lockfree, probe=probe,
+                           needsbody=False, action="", idok=True, before=(before.get("state") or ""),
+                           after=(after.get("state") or ""), exit=(ch.proc.poll() if not alive else 0), body="lost=%d" % lost))
+        if not alive or not lockfree or not probe:
+            ch.start()
+    return events
+
+
 def fuzz_one(work, worker, side, state, seed, quick):
     rng = random.Random(seed * 100 + worker)
     ch = Child(work, worker, side, state)
@@ -261,6 +319,7 @@ def fuzz_one(work, worker, side, state, seed, quick):
                 and not rq.get("norestart")
             if not alive or not lockfree or not probe or disruptive:
                 ch.start()      # back to the state under test
+        events += storm(ch, side, state, worker, rng, quick)
         return events
     finally:
         ch.stop()
@@ -286,8 +345,8 @@ def run(prop, tier, seed, replay=None):
             mc_states, mc_trans = r["distinct"], r["generated"]
             mc_runs.append(dict(distinct=r["distinct"], generated=r["generated"]))
             if not quick:
-                for bug, expect in [("doubleUnlock", "NoDoubleUnlock"), ("blockingSend", "NoBlockedHandler"),
-                                    ("relockOnError", "NoSelfDeadlock")]:
+                for bug, expect in [("doubleUnlock", "NoDoubleUnlock"), ("blockingSend", "NoBlockedHandler|NoRWDeadlock"),
+                                    ("relockOnError", "NoSelfDeadlock|NoRWDeadlock"), ("nestedRLock", "NoRWDeadlock")]:
                     r = run_tlc_mc("RestApi", mc_cfg(bug), timeout=900)
                     if r["ok"] or not re.search(expect, r["violated"] or ""):
                         raise HarnessError("self-check: mutant %s not refuted" % bug)
